@@ -5,12 +5,18 @@
 (* A behaviour = preamble (initial channel map, optional start call, run) + up to D free operations of    *)
 (* the family's alphabet:                                                                               *)
 (*   "map"  to | add c | rem c            at most MaxChg map calls       (all 7 initial maps)            *)
-(*   "iv"   to | iv ms                    at most MaxChg interval calls  (ms in 20, 100, 10240, 19)      *)
+(*   "iv"   to | iv ms                    at most MaxChg interval calls  (ms in IvMs; initial maps: all   *)
+(*                                        three channels, {38})                                          *)
 (*   "ctl"  to | start | startn k | stop | rxok | rxbad | disc           (manual start)                  *)
 (*   "all"  everything the configuration offers (used with -simulate for long random behaviours)         *)
+(*   "long" to, D times; a configuration with a run-time interval may call iv ms as its first or as its    *)
+(*          sixth free operation (at most MaxChg calls).  The advertising delay is pseudo random; an        *)
+(*          implementation that cycles through the delays 0..10 ms (bluetoe: (d + 7) mod 11 ms, delay 0 is   *)
+(*          used between the 11th and the 12th event after construction) shows every delay with every      *)
+(*          interval when D >= 36 (three channels per event) - the check counts the observed distances.    *)
 (* BFS prints every behaviour of exactly D free operations; with -simulate the random ones.              *)
 (* One TLC run serves several plans: a plan = harness configuration x family x D x MaxChg, encoded as the *)
-(* number cfg * 1000000 + family * 10000 + D * 100 + MaxChg (family 1 map, 2 iv, 3 ctl, 4 all); the        *)
+(* number cfg * 1000000 + family * 10000 + D * 100 + MaxChg (family 1 map, 2 iv, 3 ctl, 4 all, 5 long); the *)
 (* first element of a behaviour names its plan.                                                          *)
 EXTENDS AdvertisingMC, Json
 
@@ -24,16 +30,20 @@ VARIABLES plan,    \* the plan of this behaviour
 gvars == <<vars, plan, hist, stage, nfree, nchg>>
 
 \* the compiled configurations (harness ADV_CFG): 1 manual start, run-time map and interval; 2 the same with
-\* automatic start; 3 automatic, fixed map, 20 ms; 4 manual, fixed map, 10.24 s
+\* automatic start; 3 automatic, fixed map, 20 ms; 4 manual, fixed map, 10.24 s; 10 .. 14 automatic, fixed map,
+\* advertising_interval< 33 | 21 | 152 | 1022 | 10239 > (no multiples of 0.625 ms)
 CfgId  == plan \div 1000000
 Fam    == CASE (plan \div 10000) % 100 = 1 -> "map" [] (plan \div 10000) % 100 = 2 -> "iv"
-            [] (plan \div 10000) % 100 = 3 -> "ctl" [] OTHER -> "all"
+            [] (plan \div 10000) % 100 = 3 -> "ctl" [] (plan \div 10000) % 100 = 5 -> "long" [] OTHER -> "all"
 D      == (plan \div 100) % 100
 MaxChg == plan % 100
-GAuto   == CfgId \in {2, 3}
+GAuto   == CfgId \in {2, 3} \cup 10..14
 GVarMap == CfgId \in {1, 2}
 GVarIv  == CfgId \in {1, 2}
-GIv0    == CASE CfgId = 3 -> 20000 [] CfgId = 4 -> 10240000 [] OTHER -> 100000
+GIv0    == CASE CfgId = 3 -> 20000 [] CfgId = 4 -> 10240000 [] CfgId = 10 -> 33000 [] CfgId = 11 -> 21000
+             [] CfgId = 12 -> 152000 [] CfgId = 13 -> 1022000 [] CfgId = 14 -> 10239000 [] OTHER -> 100000
+\* run-time intervals (ms): the limits, one beyond each limit (ignored), multiples and non-multiples of 0.625 ms / 5 ms
+IvMs    == {19, 20, 21, 33, 100, 152, 1022, 10239, 10240, 10241}
 
 GCfg == [auto |-> GAuto, iv |-> GIv0, own |-> OwnA, ownr |-> TRUE, wln |-> 0, types |-> <<0>>, varmap |-> GVarMap, variv |-> GVarIv]
 
@@ -64,11 +74,13 @@ InFam(f) == Fam = f \/ Fam = "all"
 
 Free(ntx) ==
     \/ Timeout(ntx) /\ Do(<< <<"to">> >>) /\ UNCHANGED nchg
+    \/ /\ Fam = "long" /\ GVarIv /\ nfree \in {0, 5} /\ nchg < MaxChg /\ nchg' = nchg + 1
+       /\ \E ms \in IvMs : ms * 1000 # iv /\ SetIv(ms * 1000, ntx) /\ Do(<< <<"iv", ms>> >>)
     \/ /\ InFam("map") /\ GVarMap /\ nchg < MaxChg /\ nchg' = nchg + 1
        /\ \E c \in Chans : \/ c \notin map /\ SetMap(map \cup {c}, ntx) /\ Do(<< <<"add", c>> >>)
                            \/ c \in map /\ map # {c} /\ SetMap(map \ {c}, ntx) /\ Do(<< <<"rem", c>> >>)
     \/ /\ InFam("iv") /\ GVarIv /\ nchg < MaxChg /\ nchg' = nchg + 1
-       /\ \E ms \in {20, 100, 10240, 19} : ms * 1000 # iv /\ SetIv(ms * 1000, ntx) /\ Do(<< <<"iv", ms>> >>)
+       /\ \E ms \in IvMs : ms * 1000 # iv /\ SetIv(ms * 1000, ntx) /\ Do(<< <<"iv", ms>> >>)
     \/ /\ InFam("ctl") /\ UNCHANGED nchg
        /\ \/ StartAdv(-1, ntx) /\ Do(<< <<"start">> >>)
           \/ \E k \in (IF Fam = "all" THEN {1, 2, 4} ELSE {1, 2}) : StartAdv(k, ntx) /\ Do(<< <<"startn", k>> >>)
@@ -82,7 +94,7 @@ GNext ==
     \/ /\ owed.n = 0 /\ UNCHANGED plan
        /\ \E ntx \in Bit :
           \/ /\ stage = 0 /\ stage' = 1 /\ UNCHANGED <<nfree, nchg>>
-             /\ \E m \in (IF GVarMap /\ Fam # "ctl" THEN SUBSET Chans \ {{}} ELSE {Chans}) : SetMap(m, ntx) /\ Do(RemOps(m))
+             /\ \E m \in (IF GVarMap /\ Fam = "iv" THEN {Chans, {38}} ELSE IF GVarMap /\ Fam # "ctl" THEN SUBSET Chans \ {{}} ELSE {Chans}) : SetMap(m, ntx) /\ Do(RemOps(m))
           \/ /\ stage = 1 /\ stage' = 2 /\ UNCHANGED <<nfree, nchg>>
              /\ IF GAuto THEN UNCHANGED vars /\ UNCHANGED hist /\ ntx = 0
                 ELSE \/ StartAdv(-1, ntx) /\ Do(<< <<"start">> >>)
